@@ -18,7 +18,7 @@ Theorem C20_idempotent_tftp : forall h : list sop, tseq cur init h = spec_run fa
 Proof. exact tftp_idempotent. Qed.
 Print Assumptions C20_idempotent_tftp.
 
-Theorem C20_idempotent_http : forall h : list sop, hseq true hinit h = spec_run false h.
+Theorem C20_idempotent_http : forall h : list sop, hseq true true hinit h = spec_run false h.
 Proof. exact http_idempotent. Qed.
 Print Assumptions C20_idempotent_http.
 
@@ -34,9 +34,9 @@ Proof. exact tftp_concurrent_lifecycle. Qed.
 Print Assumptions C20_concurrent_lifecycle_tftp.
 
 Theorem C20_concurrent_lifecycle_http : forall (ops : list (list hop)) (sch : list choice),
-  let s := run hglob hpc hop hlock (hcstep true) hmstep (hpool ops) sch in
+  let s := run hglob hpc hop hlock (hcstep true true) hmstep (hpool ops) sch in
   herr (g s) = false /\
-  (all_done hglob hpc hop his_idle s = false -> exists ch, step hglob hpc hop hlock (hcstep true) hmstep s ch <> None) /\
+  (all_done hglob hpc hop his_idle s = false -> exists ch, step hglob hpc hop hlock (hcstep true true) hmstep s ch <> None) /\
   (all_done hglob hpc hop his_idle s = true -> HRunning (g s) = true \/ HStopped (g s) = true).
 Proof. exact http_concurrent_lifecycle. Qed.
 Print Assumptions C20_concurrent_lifecycle_http.
@@ -54,9 +54,9 @@ Proof. exact tftp_stop_releases. Qed.
 Print Assumptions C20_stop_releases_tftp.
 
 Theorem C20_stop_releases_http : forall ops sch i c s',
-  let s := run hglob hpc hop hlock (hcstep true) hmstep (hpool ops) sch in
+  let s := run hglob hpc hop hlock (hcstep true true) hmstep (hpool ops) sch in
   nth_error (callers s) i = Some c -> hin_stop (pc c) = true ->
-  step hglob hpc hop hlock (hcstep true) hmstep s (C i) = Some s' ->
+  step hglob hpc hop hlock (hcstep true true) hmstep s (C i) = Some s' ->
   (forall c', In c' (callers s') -> his_idle (pc c') = true) ->
   HStopped (g s') = true.
 Proof. exact http_stop_releases. Qed.
@@ -68,7 +68,7 @@ Proof. exact tftp_restart. Qed.
 Print Assumptions C20_restart_tftp.
 
 Theorem C20_restart_http : forall gl, HttpLifeProofs.hgok gl = true -> HStopped gl = true ->
-  exists g', hseq_step true gl SStart = Some (g', spec_obs false SStart) /\ HRunning g' = true.
+  exists g', hseq_step true true gl SStart = Some (g', spec_obs false SStart) /\ HRunning g' = true.
 Proof. exact http_restart. Qed.
 Print Assumptions C20_restart_http.
 
@@ -87,15 +87,15 @@ Print Assumptions C20_holds.
 
 (* ---- the behaviour before commit 6cff3cf (D8: stop() without server_close() and join) ---- *)
 Theorem C20_refuted_D8_http_stop_without_close :
-  exists h, seq_holds h (hseq false hinit h) (spec_run false h) <> [].
+  exists h, seq_holds h (hseq false false hinit h) (spec_run false h) <> [].
 Proof. exists [SStart; SStop; SStart]. vm_compute. discriminate. Qed.
 
 (* ---- what each element of the TFTP protocol is for: dropping it breaks the property ---- *)
-Definition no_join := {| v_join := false; v_close := true; v_release := true; v_chkrun := true; v_reset := true |}.
-Definition no_close := {| v_join := true; v_close := false; v_release := true; v_chkrun := true; v_reset := true |}.
-Definition hold_lock := {| v_join := true; v_close := true; v_release := false; v_chkrun := true; v_reset := true |}.
-Definition no_chkrun := {| v_join := true; v_close := true; v_release := true; v_chkrun := false; v_reset := true |}.
-Definition no_reset := {| v_join := true; v_close := true; v_release := true; v_chkrun := true; v_reset := false |}.
+Definition no_join := {| v_join := false; v_close := true; v_release := true; v_chkrun := true; v_reset := true; v_trycovers := true |}.
+Definition no_close := {| v_join := true; v_close := false; v_release := true; v_chkrun := true; v_reset := true; v_trycovers := true |}.
+Definition hold_lock := {| v_join := true; v_close := true; v_release := false; v_chkrun := true; v_reset := true; v_trycovers := true |}.
+Definition no_chkrun := {| v_join := true; v_close := true; v_release := true; v_chkrun := false; v_reset := true; v_trycovers := true |}.
+Definition no_reset := {| v_join := true; v_close := true; v_release := true; v_chkrun := true; v_reset := false; v_trycovers := true |}.
 
 Theorem C20_refuted_variants :
   seq_holds [SStart; SStop] (tseq no_join init [SStart; SStop]) (spec_run false [SStart; SStop]) = ["stop_releases"%string] /\
@@ -105,6 +105,20 @@ Theorem C20_refuted_variants :
   seq_holds [SStart; SStop; SStart; SStop] (tseq no_reset init [SStart; SStop; SStart; SStop])
             (spec_run false [SStart; SStop; SStart; SStop]) <> [].
 Proof. repeat split; vm_compute; try reflexivity; discriminate. Qed.
+
+(* Thread.start() raising after the bind: with the thread creation inside the try whose except closes the
+   socket (TFTP, the code as it is) the failed start leaves the server stopped; with it outside, and in
+   HttpServer.start as it is (no try/except at all: cleanup_on_start_failure = false), the socket stays bound
+   while _running is False, stop() is a no-op and the port is never released -- KNOWN FINDING for HTTP *)
+Definition no_trycover := {| v_join := true; v_close := true; v_release := true; v_chkrun := true; v_reset := true; v_trycovers := false |}.
+Theorem C20_refuted_start_thread_failure :
+  seq_holds [SStartThreadFail; SStop] (tseq cur init [SStartThreadFail; SStop]) (spec_run false [SStartThreadFail; SStop]) = [] /\
+  seq_holds [SStartThreadFail; SStop] (tseq no_trycover init [SStartThreadFail; SStop]) (spec_run false [SStartThreadFail; SStop])
+    = ["failed_start_leaves_state"%string] /\
+  seq_holds [SStartThreadFail; SStop] (hseq true false hinit [SStartThreadFail; SStop]) (spec_run false [SStartThreadFail; SStop])
+    = ["failed_start_leaves_state"%string] /\
+  seq_holds [SStartThreadFail; SStop; SStart] (hseq true true hinit [SStartThreadFail; SStop; SStart]) (spec_run false [SStartThreadFail; SStop; SStart]) = [].
+Proof. repeat split; vm_compute; reflexivity. Qed.
 
 (* stop() called while the main thread is busy in a request handler: with the join the call is still
    blocked when the handler is released (the model says stop() MUST wait); without it stop() returns while
